@@ -84,6 +84,8 @@ Max2(a, b) == IF a > b THEN a ELSE b
 StructuralClauses(e) ==
      /\ Chk("CellsInRange", Pairs(e.cells) \subseteq Eqs(N) \X Eqs(N))
      /\ Chk("NoCellAssignedTwice", Len(e.cells) = Cardinality(Pairs(e.cells)))
+     /\ Chk("MacroExpressionsParenthesised", e.unparenthesised = 0)
+     /\ Chk("BatchStrideIsSystemSize", e.strides_ok)
      /\ Chk("MacroNSPECIES", e.nspecies = N.n)
      /\ Chk("MacroNEQUATIONS", e.neq = NEq(N))
      /\ Chk("MacroNREACTIONS", e.nreac = Max2(Len(N.R), 1))
